@@ -43,7 +43,7 @@ pub fn post_fault_oracle(u: &Universe, cfg: &Config, ex: &mut Exec, fp: Props, v
     let w = match walk(&dump) {
         Ok(w) => w,
         Err(why) => {
-            viol.push((fp, "C16.structure", format!("the list/table structure is incoherent: {why}")));
+            viol.push((fp, "postfault.structure", format!("the list/table structure is incoherent: {why}")));
             std::mem::forget(ex.cache.take());
             return None;
         }
@@ -56,7 +56,7 @@ pub fn post_fault_oracle(u: &Universe, cfg: &Config, ex: &mut Exec, fp: Props, v
     let key = match key {
         Ok(k) => k,
         Err(why) => {
-            viol.push((fp, "C16.traversal", why));
+            viol.push((fp, "postfault.traversal", why));
             std::mem::forget(ex.cache.take());
             return None;
         }
@@ -68,7 +68,7 @@ pub fn post_fault_oracle(u: &Universe, cfg: &Config, ex: &mut Exec, fp: Props, v
     rev.reverse();
     let fwd: Vec<u64> = obs.entries.iter().map(|x| x.kserial).collect();
     if rev != fwd || c.len() != n {
-        viol.push((fp, "C16.mirror", format!("forward traversal {:?}, reversed reverse traversal {:?}, len() = {}", fwd, rev, c.len())));
+        viol.push((fp, "postfault.mirror", format!("forward traversal {:?}, reversed reverse traversal {:?}, len() = {}", fwd, rev, c.len())));
     }
     let mut ids: Vec<u32> = (0..u.nkeys as u32).collect();
     for x in &obs.entries {
@@ -80,11 +80,11 @@ pub fn post_fault_oracle(u: &Universe, cfg: &Config, ex: &mut Exec, fp: Props, v
         let exp = obs.entries.iter().find(|x| x.id == id);
         let got = c.peek_entry(&QKey(KeyId(id))).map(|(k, x)| (k.serial, x.serial));
         if got != exp.map(|x| (x.kserial, x.vserial)) || c.contains(&QKey(KeyId(id))) != exp.is_some() {
-            viol.push((fp, "C16.lookup", format!("lookup of k{id} finds {:?} but traversal holds {:?}", got, exp.map(|x| (x.kserial, x.vserial)))));
+            viol.push((fp, "postfault.lookup", format!("lookup of k{id} finds {:?} but traversal holds {:?}", got, exp.map(|x| (x.kserial, x.vserial)))));
         }
     }
     for rv in take_reg_violations() {
-        viol.push((fp, "C16.registry", rv));
+        viol.push((fp, "postfault.registry", rv));
     }
     Some(Snap { dump, walk: w, obs, key })
 }
@@ -223,12 +223,12 @@ pub fn fault_scan(ctx: &Ctx, cfg: &Config, hist: &[Op], alpha: &[Op], st: &mut S
                     ex.release();
                     let _ = catch_unwind(AssertUnwindSafe(|| drop(ex.cache.take())));
                     for rv in take_reg_violations() {
-                        viol.push((fp, "C16.registry", format!("when the cache was dropped afterwards: {rv}")));
+                        viol.push((fp, "postfault.registry", format!("when the cache was dropped afterwards: {rv}")));
                     }
                 } else {
                     ex.release();
                     for rv in take_reg_violations() {
-                        viol.push((fp, "C16.registry", rv));
+                        viol.push((fp, "postfault.registry", rv));
                     }
                 }
                 for (props, rule, detail) in viol {
@@ -359,7 +359,7 @@ pub fn forget_scan(ctx: &Ctx, cfg: &Config, hist: &[Op], exhaustive_len: usize, 
                         }
                         let _ = catch_unwind(AssertUnwindSafe(|| drop(ex.cache.take())));
                         for rv in take_reg_violations() {
-                            viol.push((fp, "C17.registry", format!("when the cache was dropped afterwards: {rv}")));
+                            viol.push((fp, "postfault.registry", format!("when the cache was dropped afterwards: {rv}")));
                         }
                     }
                 }
@@ -370,7 +370,7 @@ pub fn forget_scan(ctx: &Ctx, cfg: &Config, hist: &[Op], exhaustive_len: usize, 
                     }
                     ex.release();
                     for rv in take_reg_violations() {
-                        viol.push((fp, "C17.registry", rv));
+                        viol.push((fp, "postfault.registry", rv));
                     }
                 }
             }
